@@ -193,8 +193,11 @@ func (s *nhSM) restore(r io.Reader) (uint64, error) {
 		return 0, err
 	}
 	st := newNhKVState()
-	if err := json.Unmarshal(b, st); err != nil {
-		return 0, err
+	if len(b) > 0 {
+		// (the image of a state machine that has applied nothing is empty, see nhOnDiskSM.SaveSnapshot)
+		if err := json.Unmarshal(b, st); err != nil {
+			return 0, err
+		}
 	}
 	s.mu.Lock()
 	s.st = st
@@ -443,6 +446,15 @@ func (s *nhOnDiskSM) SaveSnapshot(ctx interface{}, w io.Writer, done <-chan stru
 	s.jitter(2000)
 	s.slow()
 	b, _ := json.Marshal(ctx.(*nhKVState))
+	if st := ctx.(*nhKVState); s.c.emptyImage && st.Applied == 0 && len(st.KV) == 0 && len(st.Ops) == 0 {
+		// a state machine that has applied nothing writes nothing: the empty byte string is a legal image
+		b = nil
+		s.c.rec.emit("EmptyImage", nhEv{"h": s.h.id})
+		// (the finding recorded for this case is a raw panic of another goroutine: the event must be in the file)
+		s.c.rec.mu.Lock()
+		s.c.rec.w.Flush()
+		s.c.rec.mu.Unlock()
+	}
 	_, err := w.Write(b)
 	s.exit("SaveSnapshot", nhEv{"applied": ctx.(*nhKVState).Applied})
 	return err
